@@ -6,6 +6,8 @@ package main
 import (
 	"fmt"
 	"math/big"
+	"sync"
+	"time"
 
 	"github.com/bartossh/Computantis/src/accountant"
 	"github.com/bartossh/Computantis/src/spice"
@@ -353,6 +355,133 @@ func contains(ns []*Node, n *Node) bool {
 	return false
 }
 
+
+// staleLookups: several calls for the same transaction / vertex pass their unlocked look-ups while the
+// ledger lock is held by the harness (VerifHoldLedger) and then run their locked bodies one after the
+// other. The winner is replayed on the model as an ordinary call, every loser as the locked body alone
+// (LPROP / LADD) on the book the winner left behind; afterwards the same thing is offered once more.
+func staleLookups(c *Ctx, round int) {
+	w := NewWorld(c)
+	defer w.Close()
+	a, b := w.NewNode(), w.NewNode()
+	for i := 0; i < 3; i++ {
+		w.NewWallet()
+	}
+	if _, err := w.Genesis(a, w.wallets[0].Address(), spice.Melange{Currency: 1000}); err != nil {
+		return
+	}
+	if w.syncFrom(a, b) != nil {
+		return
+	}
+	for i := 0; i < 2+round%3; i++ {
+		t := w.NewTrx(w.wallets[0], w.wallets[1+i%2].Address(), spice.Melange{Currency: 5}, nil)
+		if v, err := w.Propose(a, &t); err == nil {
+			w.Add(b, &v)
+		}
+	}
+	k := 2 + round%3
+	info := map[string]interface{}{"section": "ledger", "scenario": "stale-lookups", "round": round, "simultaneous": k}
+	// ---- simultaneous proposals of one transaction at a
+	{
+		t := w.NewTrx(w.wallets[0], w.wallets[2].Address(), spice.Melange{Currency: 10}, nil)
+		tf := w.trxFields(&t)
+		vs := make([]accountant.Vertex, k)
+		errs := make([]error, k)
+		var wg sync.WaitGroup
+		a.ab.VerifHoldLedger(func() {
+			for i := 0; i < k; i++ {
+				wg.Add(1)
+				go func(i int) {
+					defer wg.Done()
+					cp := t
+					vs[i], errs[i] = a.ab.CreateLeaf(w.ctx, &cp)
+				}(i)
+			}
+			time.Sleep(40 * time.Millisecond) // all of them are past the look-up and queue on the lock
+		})
+		wg.Wait()
+		snap := w.Snap(a)
+		wins := 0
+		for i := 0; i < k; i++ {
+			if errs[i] == nil {
+				wins++
+				w.c.Line("PROP %d %s %d | ok | %s", a.id, tf, w.DefV(&vs[i]), snap)
+				w.after(a, "propose", nil)
+			}
+		}
+		for i := 0; i < k; i++ {
+			if errs[i] != nil {
+				w.c.Line("LPROP %d %s 0 | %s | %s", a.id, tf, errTag(errs[i]), snap)
+				w.after(a, "propose.stale", errs[i])
+			}
+		}
+		if wins != 1 {
+			c.Violate("C03", "simultaneous-proposals-sealed-not-once", fmt.Sprintf("%d simultaneous proposals of one transaction: %d were sealed", k, wins), info)
+		}
+		cp := t
+		if _, err := w.Propose(a, &cp); err == nil {
+			c.Violate("C03", "transaction-sealed-again-after-simultaneous-proposals", "a transaction already sealed was sealed again after simultaneous duplicate proposals", info)
+		}
+		c.Distinct(fmt.Sprintf("stale-proposals/%d/wins=%d", k, wins))
+	}
+	// ---- simultaneous deliveries of one vertex (sealed at b) to a
+	{
+		t := w.NewTrx(w.wallets[0], w.wallets[1].Address(), spice.Melange{Currency: 7}, nil)
+		// bring b up to date first
+		for _, v := range w.Stream(a) {
+			cp := *v
+			b.ab.AddLeaf(w.ctx, &cp)
+		}
+		w.Seed(b)
+		v, err := w.Propose(b, &t)
+		if err != nil {
+			return
+		}
+		errs := make([]error, k)
+		var wg sync.WaitGroup
+		a.ab.VerifHoldLedger(func() {
+			for i := 0; i < k; i++ {
+				wg.Add(1)
+				go func(i int) {
+					defer wg.Done()
+					cp := v
+					errs[i] = a.ab.AddLeaf(w.ctx, &cp)
+				}(i)
+			}
+			time.Sleep(40 * time.Millisecond)
+		})
+		wg.Wait()
+		snap := w.Snap(a)
+		name := w.DefV(&v)
+		wins := 0
+		for i := 0; i < k; i++ {
+			if errs[i] == nil {
+				wins++
+				w.c.Line("ADD %d %d | ok | %s", a.id, name, snap)
+				w.after(a, "add", nil)
+			}
+		}
+		for i := 0; i < k; i++ {
+			if errs[i] != nil {
+				w.c.Line("LADD %d %d | %s | %s", a.id, name, errTag(errs[i]), snap)
+				w.after(a, "add.stale", errs[i])
+			}
+		}
+		if wins != 1 {
+			c.Violate("C03", "simultaneous-deliveries-admitted-not-once", fmt.Sprintf("%d simultaneous deliveries of one vertex: %d were admitted", k, wins), info)
+		}
+		if err := w.Add(a, &v); err == nil {
+			c.Violate("C03", "vertex-admitted-again-after-simultaneous-deliveries", "a vertex already held was admitted again", info)
+		}
+		// the transaction of that vertex proposed locally afterwards
+		cp := t
+		if _, err := w.Propose(a, &cp); err == nil {
+			c.Violate("C03", "transaction-sealed-again-after-simultaneous-deliveries", "the transaction of a delivered vertex was sealed again locally", info)
+		}
+		c.Distinct(fmt.Sprintf("stale-deliveries/%d/wins=%d", k, wins))
+	}
+}
+
 var supplies = []spice.Melange{
 	{Currency: 1000}, {Currency: 3, SupplementaryCurrency: maxSupp - 1}, {Currency: 0, SupplementaryCurrency: 10},
 	{Currency: 1 << 40, SupplementaryCurrency: 1}, {Currency: 10, SupplementaryCurrency: maxSupp / 2},
@@ -360,7 +489,7 @@ var supplies = []spice.Melange{
 
 func init() {
 	sections["ledger"] = func(c *Ctx) error {
-		c.Rep.Rule = "random multi-node histories (1-3 real AccountingBooks, 3-6 wallets, proposals incl. overdrafts/contracts/empty/own-node/genesis-issuer/duplicates, gossip in any order with duplicates and corrupted copies, trusted toggles, balance queries, orphan retries, late sync); non-trivial = scenario with at least one sealed spice transfer"
+		c.Rep.Rule = "random multi-node histories (1-3 real AccountingBooks, 3-6 wallets, proposals incl. overdrafts/contracts/empty/own-node/genesis-issuer/duplicates, gossip in any order with duplicates and corrupted copies, trusted toggles, balance queries, orphan retries, late sync); stale look-ups: 2-4 simultaneous proposals of one transaction / deliveries of one vertex queued behind the held ledger lock, winner replayed as the whole call and losers as the locked body alone; non-trivial = scenario with at least one sealed spice transfer"
 		scen := 40
 		if c.Tier == "thorough" {
 			scen = 400
@@ -370,6 +499,13 @@ func init() {
 				supply: pick(c, supplies), adversarial: c.Rnd.Intn(3) == 0}
 			c.Rep.Extra["scenario"] = i
 			ledgerScenario(c, p)
+		}
+		sr := 6
+		if c.Tier == "thorough" {
+			sr = 60
+		}
+		for r := 0; r < sr; r++ {
+			staleLookups(c, r)
 		}
 		c.Sample(map[string]interface{}{"scenarios": scen, "example": "GEN n0 -> w0 1000; PROP n0 w0->w1 1.25; ADD n1 v2; PROP n1 w1->w2 ...; BAL ...; RETRY ..."})
 		_ = big.NewInt
